@@ -130,6 +130,31 @@ def bands(rec, part, parts):
                     return '%s: the polygon of bulk probability %s is drawn through %s, its limits are upper %s / lower %s at the times %s' % (cls.__name__, p, list(zip(gx, gy)), up, lo, ut)
         if not df.equals(ref):
             return 'the prediction data frame passed in was modified'
+        # predictions of several observables in one frame (labels of any type, also falsy ones): the band of the chosen observable is
+        # computed from that observable's rows only
+        for labels in (('o', 'other'), (1, 0), ('B', '')):
+            parts_ = []
+            for j, lab in enumerate(labels):
+                d_ = df.copy(deep=True)
+                d_['Observable'] = lab
+                d_['Value'] = d_['Value'] + 1000.0 * j
+                parts_.append(d_)
+            both = pd.concat(parts_, ignore_index=True).sample(frac=1.0, random_state=3).reset_index(drop=True)
+            ref2 = both.copy(deep=True)
+            for cls in (chi.plots.PDPredictivePlot, chi.plots.PKPredictivePlot):
+                for j, lab in enumerate(labels):
+                    fig = cls()
+                    try:
+                        fig.add_prediction(both, observable=lab, bulk_probs=[0.3])
+                    except Exception as ex:
+                        return '%s.add_prediction(observable=%r) raises %r for a frame with the observables %r' % (cls.__name__, lab, ex, labels)
+                    polys = [tr for tr in fig._fig.data if getattr(tr, 'fill', None) == 'toself']
+                    ys = [float(v) for tr in polys for v in tr.y if not np.isnan(float(v))]
+                    own = both[both['Observable'] == lab]['Value']
+                    if len(polys) != 1 or not all(any(abs(v - w) < 1e-9 for w in own) for v in ys):
+                        return '%s.add_prediction(observable=%r): the band %s is not made of the sample values of that observable (labels %r)' % (cls.__name__, lab, ys[:6], labels)
+            if not both.equals(ref2):
+                return 'the prediction data frame passed in was modified'
         return None
     rec.native_check('bands.enclose[%d]' % part, ['chi.plots._time_series.PDPredictivePlot._compute_bulk_probs', 'chi.plots._time_series.PKPredictivePlot._compute_bulk_probs',
                                                   'chi.plots._time_series.PDPredictivePlot.add_prediction', 'chi.plots._time_series.PKPredictivePlot.add_prediction',
@@ -143,7 +168,8 @@ def frames(rng, n_cases):
     for k in range(n_cases):
         n_ids = int(rng.integers(1, 5)) if k % 10 else int(rng.integers(11, 24))        # every tenth frame has more individuals than the colour palette has entries
         ids = [int(v) for v in rng.permutation(np.arange(1, 60))[:n_ids]]
-        obs = ['tumour', 'drug', 'weight'][:int(rng.integers(1, 4))]
+        # observable labels: strings, integer codes and floats, including labels that are falsy in Python (0, 0.0, ''): a label is a label
+        obs = [['tumour', 'drug', 'weight'], [2, 0, 1], ['B', '', 'C'], [1.5, 0.0, 3.0]][k % 4][:int(rng.integers(1, 4))]
         custom = bool(rng.integers(0, 2))
         K = {'id': 'ID', 'time': 'Time', 'obs': 'Observable', 'val': 'Value', 'dose': 'Dose', 'dur': 'Duration'}
         if custom:
@@ -219,6 +245,41 @@ def data_traces(rec):
                             return '%s: the dose trace of individual %s holds %s, its dose rows are %s' % (cls.__name__, i_, list(zip(gx, gy, gt)), list(zip(wx, wy, wt)))
         if not df.equals(ref) or list(df.columns) != list(ref.columns):
             return 'add_data modified the data frame passed in'
+        # a second data frame added to the same figure (another study arm that re-uses the ID labels, other rows): the figure then
+        # holds the traces of the first call followed by those of the second call
+        df2 = df.copy(deep=True)
+        df2[K['val']] = df2[K['val']] * 2.0 + 100.0
+        df2[K['dose']] = df2[K['dose']] * 3.0 + 0.5
+        df2[K['time']] = df2[K['time']] + 0.125
+        df2 = df2.iloc[::-1]
+        calls = [(df, present[0]), (df2, present[-1]), (df, present[-1])]
+        for cls in (chi.plots.PDTimeSeriesPlot, chi.plots.PDPredictivePlot, chi.plots.PKTimeSeriesPlot, chi.plots.PKPredictivePlot):
+            fig = cls()
+            pk = cls.__name__.startswith('PK')
+            want_meas, want_dose = [], []
+            for d_, o_ in calls:
+                kw = dict(observable=o_, id_key=K['id'], time_key=K['time'], obs_key=K['obs'], value_key=K['val'])
+                if pk:
+                    kw.update(dose_key=K['dose'], dose_duration_key=K['dur'])
+                try:
+                    fig.add_data(d_, **kw)
+                except Exception as ex:
+                    return '%s: a further add_data(observable=%r) on the same figure raises %r' % (cls.__name__, o_, ex)
+                sub = d_[d_[K['obs']] == o_]
+                dd = d_[d_[K['dose']].notnull()]
+                for i_ in dict.fromkeys(sub[K['id']].tolist()):
+                    rows_ = sub[sub[K['id']] == i_]
+                    want_meas.append((rows_[K['time']].tolist(), rows_[K['val']].tolist()))
+                    rows_ = dd[dd[K['id']] == i_]
+                    want_dose.append((rows_[K['time']].tolist(), rows_[K['dose']].tolist()))
+            traces = list(fig._fig.data)
+            got_meas = [([float(v) for v in tr.x], [float(v) for v in tr.y]) for tr in traces if tr.showlegend]
+            got_dose = [([float(v) for v in tr.x], [float(v) for v in tr.y]) for tr in traces if not tr.showlegend]
+            same = lambda a, b: len(a) == len(b) and all(x[0] == y[0] and np.allclose(x[1], y[1], equal_nan=True) and len(x[1]) == len(y[1]) for x, y in zip(a, b))
+            if not same(got_meas, want_meas):
+                return '%s: after three add_data calls on one figure (second frame re-uses the ID labels) the measurement traces are %s, the rows are %s' % (cls.__name__, got_meas[:6], want_meas[:6])
+            if pk and not same(got_dose, want_dose):
+                return '%s: after three add_data calls on one figure (second frame re-uses the ID labels, other dose rows) the dose traces are %s, the dose rows are %s' % (cls.__name__, got_dose[:6], want_dose[:6])
         return None
     rec.native_check('traces.data', ['chi.plots._time_series.PDTimeSeriesPlot.add_data', 'chi.plots._time_series.PDPredictivePlot.add_data', 'chi.plots._time_series.PKTimeSeriesPlot.add_data',
                                      'chi.plots._time_series.PKPredictivePlot.add_data'], cases, one,
